@@ -847,6 +847,13 @@ func writeCompatibilitySerializers(w *formatting.IndentedWriter, change dsl.Defi
 					fmt.Fprintf(w, "%s(stream, value.%s);\n", typeRwFunction(field.Type, write), tmpVarName)
 				}
 			}
+			if !write {
+				// Fields that the previous version does not have: the value being read into may
+				// have been used before (stream items are read into one value or vector again and again)
+				for _, added := range change.FieldsAdded {
+					fmt.Fprintf(w, "value.%s = {};\n", common.FieldIdentifierName(added.Name))
+				}
+			}
 		case *dsl.NamedTypeChange:
 			switch prev := change.PreviousDefinition().(type) {
 			case *dsl.NamedType:
